@@ -194,6 +194,8 @@ class Model:
         self.objs[o2] = ob
         pred.trig.add('watch_copy')
 
+    op_cpobjc = op_cpobj
+
     def op_asobj(self, pred, o2, o):
         self.objs[o2].payload = self.objs[o].payload
         pred.assign = self.objs[o2].payload
